@@ -220,7 +220,7 @@ def decide(spec, group, tier, seed, replay=None):
             if exe is None:
                 broken.append('harness %s does not compile against the working tree: %s' % (xgroup['name'], (err or '')[-1200:]))
                 continue
-            xcases = xgen(core.Gen(seed + 17), tier) if not replay else [c for c in cases if c.line.split()[0].startswith('mp.')]
+            xcases = xgen(core.Gen(seed + 17), tier) if not replay else [c for c in cases if c.line.startswith(xgroup.get('replay_prefix', 'mp.'))]
             xo = core.run_lines([exe], [c.line for c in xcases])
             for c, o in zip(xcases, xo):
                 if not replay:
